@@ -7,6 +7,10 @@ import os
 from harness import enc
 
 PROP = "C20"
+# the l2_normalize theorems (Properties/C20.v, module RealRows) are stated over the standard library's real numbers
+AXIOM_WHITELIST = ["sig_not_dec", "sig_forall_dec", "functional_extensionality_dep", "classic"]
+TRUSTED = ["C20 module RealRows: Coq standard-library axioms of the real numbers (ClassicalDedekindReals.sig_not_dec, sig_forall_dec) and "
+           "FunctionalExtensionality.functional_extensionality_dep, through Reals; the float computation is compared with the real one by the driver"]
 CHECK_MODULE = "Check.C20"
 COQ_IMPORTS = "Model.Condensed"
 INTERP = "vt"
